@@ -2101,9 +2101,9 @@ def object_history_checks(ctx, pid):
     for cls, specs in sorted(class_specs().items()):
         for spec in specs:
             ctx.count("object_history:" + cls)
-            inp = {"comp": True, "what": "fresh-arrays", "spec": spec}
-            check_fresh_arrays(ctx, pid, inp)
+            # re-binding first: a defect of class (i) (shared arrays) would otherwise be reported under its name too
             check_rebind(ctx, pid, {"comp": True, "what": "rebind", "spec": spec})
+            check_fresh_arrays(ctx, pid, {"comp": True, "what": "fresh-arrays", "spec": spec})
             ctx.nontriv(("object-history", cls, repr(spec)[:600]))
     for spec in close_parameter_specs():
         ctx.count("close_parameter_composites")
